@@ -411,7 +411,10 @@ class StepExec:
     def call_lambda(self, lam, args):
         _, params, body = lam
         saved = dict(self.env)
+        args = [self.resolve(a) for a in args]           # in the caller's scope: a parameter may carry the name of the argument it is bound to
         for p, a in zip(params, args):
+            if a == ("ref", p):
+                continue                                  # same name, same thing
             self.env[p] = ("alias", a)
         result = self._lambda_value(body)
         self.env = saved
@@ -840,6 +843,8 @@ def inline_ir(body, helpers, keep=("tick", "processUpdate"), depth=0, problems=N
     argument expressions, constexpr-ifs of the instantiation resolved, colliding locals renamed, a tail `return e` bound to the call's target"""
     if depth > 6:
         return body
+    if depth == 0:
+        body = _static_helper_calls(body, helpers, keep)
     used = _ir_decls(body, set())
     out = []
     counter = [0]
@@ -905,7 +910,27 @@ def inline_ir(body, helpers, keep=("tick", "processUpdate"), depth=0, problems=N
             out.append(x[:-1] + (inline_ir(x[-1], helpers, keep, depth, problems),))
         else:
             out.append(x)
+    if depth == 0:
+        # a local lambda handed to an inlined helper is now called where the helper called its parameter
+        out = cppast.beta_ir(_static_helper_calls(out, helpers, keep))
     return out
+
+
+def _static_helper_calls(x, helpers, keep, depth=0):
+    """`helper(args)` (a static member function named without `this->`) as the immediately-invoked function it is: single-return helpers are
+    substituted, others become `(lambda(params){body})(args)` for the executors' call_lambda"""
+    if isinstance(x, list):
+        return [_static_helper_calls(y, helpers, keep, depth) for y in x]
+    if not isinstance(x, tuple) or not x:
+        return x
+    x = tuple(_static_helper_calls(y, helpers, keep, depth) for y in x)
+    if x[0] == "call" and isinstance(x[1], str) and x[1] in helpers and x[1] not in keep and depth < 4:
+        cands = [h for h in helpers[x[1]] if len(h[0]) == len(x[2])]
+        if cands:
+            params, hb = cands[0]
+            hb = _static_helper_calls(cppast.resolve_constexpr(hb), helpers, keep, depth + 1)
+            return cppast.reduce_immediate(("call", ("lambda", [pn for pn, _ in params], hb), list(x[2])))
+    return x
 
 
 def structure_continue(body, in_loop=False, top=False):
